@@ -19,6 +19,8 @@ flip = 0: subblocks are 2×4 side by side (subblock 1 = left); flip = 1: 4×2 on
 the intensity table; the result is clamped to 0..255 per channel.
 -/
 import MilaModel.Basic
+import MilaModel.Spec.Morton
+import MilaModel.Spec.Linear
 
 namespace Mila.Spec.Etc1
 
@@ -81,5 +83,14 @@ def channel (word x y ch : Nat) : Int :=
 
 /-- ETC1A4: the 4-bit alpha of texel `(x, y)` in the 64-bit alpha word (nibble number x*4 + y). -/
 def alphaNibble (alphas x y : Nat) : Nat := alphas / 2 ^ (4 * (x * 4 + y)) % 16
+
+/-- The 64-bit colour word of the block that holds pixel `(x, y)` of a `w` pixels wide ETC1
+(8-byte blocks) or ETC1A4 (16-byte blocks, alpha word first) payload; words are little-endian. -/
+def wordAt (data : Array UInt8) (w : Nat) (alpha : Bool) (x y : Nat) : Nat :=
+  Linear.leAt data (Morton.etcBlock w x y * (if alpha then 16 else 8) + (if alpha then 8 else 0)) 8
+
+/-- The 64-bit alpha word of that block (all ones when the format has no alpha). -/
+def alphaWordAt (data : Array UInt8) (w : Nat) (alpha : Bool) (x y : Nat) : Nat :=
+  if alpha then Linear.leAt data (Morton.etcBlock w x y * 16) 8 else 0xFFFFFFFFFFFFFFFF
 
 end Mila.Spec.Etc1
